@@ -201,6 +201,18 @@ impl Property for C05 {
                     m2[i] ^= 1 << (flip % 8);
                 }
                 ensure!(!accepts(lib_call("verify_digest", || ECDSA::verify_digest(&m2, &pk, &sig, algo))?), "rejects_other_message", "accepted", "rejected");
+                if !sha256d {
+                    // the boolean convenience verifiers reject too
+                    ensure!(!lib_call("Signature::verify_message", || sig.verify_message(&m2, &pk))?, "signature_verify_message_rejects_other_message", "true", "false");
+                    ensure!(!lib_call("is_valid_message", || pk.is_valid_message(&m2, &sig))?, "is_valid_message_rejects_other_message", "true", "false");
+                    ensure!(!accepts(lib_call("PublicKey::verify_message", || pk.verify_message(&m2, &sig))?), "pubkey_verify_message_rejects_other_message", "accepted", "rejected");
+                } else {
+                    // a SHA-256d signature is not a valid SHA-256 ("message") signature
+                    ensure!(!lib_call("Signature::verify_message", || sig.verify_message(&m, &pk))?, "signature_verify_message_rejects_other_hash", "true", "false");
+                    ensure!(!lib_call("is_valid_message", || pk.is_valid_message(&m, &sig))?, "is_valid_message_rejects_other_hash", "true", "false");
+                }
+                let d2 = digest_of(&m2, sha256d);
+                ensure!(!accepts(lib_call("verify_hashbuf", || ECDSA::verify_hashbuf(&d2, &pk, &sig))?), "verify_hashbuf_rejects_other_digest", "accepted", "rejected");
                 ensure!(!accepts(lib_call("verify_digest", || ECDSA::verify_digest(&m, &pk, &sig, lib_hash(!sha256d)))?), "rejects_other_hash", "accepted", "rejected");
                 let od = other.value();
                 if od != d && od != secp::n() - &d {
@@ -209,6 +221,7 @@ impl Property for C05 {
                     ensure!(!accepts(lib_call("verify_digest", || ECDSA::verify_digest(&m, &opk, &sig, algo))?), "rejects_other_key", "accepted", "rejected");
                     if !sha256d {
                         ensure!(!lib_call("Signature::verify_message", || sig.verify_message(&m, &opk))?, "rejects_other_key_verify_message", "true", "false");
+                        ensure!(!lib_call("is_valid_message", || opk.is_valid_message(&m, &sig))?, "rejects_other_key_is_valid_message", "true", "false");
                     }
                 }
                 o.nt("negative-checks");
